@@ -20,13 +20,14 @@ func main() {
 	fn := flag.String("func", "", "function display name, e.g. chain.(*Manager).AddBlocks")
 	norm := flag.Bool("norm", false, "print the normalised body without expansion")
 	stop := flag.String("stop", "", "comma-separated callee names kept as calls")
+	defers := flag.Bool("defers", false, "make deferred calls explicit before every return")
 	all := flag.Bool("all", false, "expand every function and build its graph (smoke test)")
 	flag.Parse()
 	stops := map[string]bool{}
 	for _, n := range strings.Split(*stop, ",") {
 		stops[n] = true
 	}
-	opt := ir.ExpandOpt{Key: "dump", Stop: func(fn *types.Func) bool { return stops[fn.Name()] }}
+	opt := ir.ExpandOpt{Key: "dump", Defers: *defers, Stop: func(fn *types.Func) bool { return stops[fn.Name()] }}
 	p, err := ir.Load(*repo, nil)
 	if err != nil {
 		fmt.Fprintln(os.Stderr, err)
